@@ -208,6 +208,94 @@ def record_case(case):
     return rec
 
 
+# ----------------------------------------------------------------------------- crash-proof pool
+def _chunk_worker(conn, cases):
+    try:
+        conn.send([record_case(c) for c in cases])
+    finally:
+        conn.close()
+
+
+def _run_isolated(cases, timeout):
+    """Run cases in one forked child; None if the child died (jitted code can corrupt memory
+    when an index is wrong, which kills the interpreter instead of raising)."""
+    import multiprocessing as mp
+
+    ctx = mp.get_context("fork")
+    a, b = ctx.Pipe(duplex=False)
+    p = ctx.Process(target=_chunk_worker, args=(b, cases))
+    p.start()
+    b.close()
+    out = None
+    try:
+        if a.poll(timeout):
+            out = a.recv()
+    except (EOFError, OSError):
+        out = None
+    p.join(5)
+    if p.is_alive():
+        p.kill()
+        p.join()
+    return out, p.exitcode
+
+
+def safe_map(cases, nproc=None, max_crashes=3):
+    """Ordered map of record_case over cases with forked workers.  If a worker dies, its cases are
+    re-run one per process to find the ones that kill the interpreter: those get an `error` record
+    (the property promises a value, not a crash).  After max_crashes such cases the rest of the
+    broken chunks is not replayed (`notrun`), the run is already a violation."""
+    import os
+    from concurrent.futures import ProcessPoolExecutor, as_completed
+    import multiprocessing as mp
+
+    from . import ux as hux
+
+    hux.import_ux()
+    cases = list(cases)
+    if nproc is None:
+        nproc = int(os.environ.get("VERIF_NPROC", "0")) or min(16, os.cpu_count() or 4)
+    size = max(1, min(100, len(cases) // (nproc * 4) or 1))
+    chunks = [cases[i : i + size] for i in range(0, len(cases), size)]
+    results = [None] * len(chunks)
+    ex = ProcessPoolExecutor(nproc, mp_context=mp.get_context("fork"))
+    futs = {ex.submit(_pool_chunk, ch): k for k, ch in enumerate(chunks)}
+    try:
+        for fut in as_completed(futs, timeout=max(240.0, 1.0 * len(cases))):
+            try:
+                results[futs[fut]] = fut.result()
+            except Exception:  # BrokenProcessPool: some worker died
+                pass
+    except Exception:  # TimeoutError: a worker hangs (corrupted heap); the unfinished chunks are re-run isolated
+        pass
+    procs = list(getattr(ex, "_processes", {}).values())
+    ex.shutdown(wait=False, cancel_futures=True)
+    for p in procs:
+        if p.is_alive():
+            p.kill()
+    crashes = 0
+    for k, ch in enumerate(chunks):
+        if results[k] is not None:
+            continue
+        out = []
+        for c in ch:
+            if crashes >= max_crashes:
+                out.append({"id": c["id"], "closed": bool(c["closed"]), "notrun": "earlier cases killed the interpreter"})
+                continue
+            r, code = _run_isolated([c], 90)
+            if r is None:
+                crashes += 1
+                out.append({"id": c["id"], "closed": bool(c["closed"]),
+                            "error": "get_dual: the interpreter died or hung (exit code %s) while replaying this case" % code})  # fmt: skip
+            else:
+                out.append(r[0])
+        results[k] = out
+    return [r for ch in results for r in ch]
+
+
+def _pool_chunk(cases):
+    return [record_case(c) for c in cases]
+
+
 def main(argv):
     src, dst = argv
     with open(src) as fh:
